@@ -31,6 +31,42 @@ CHECKS = {
  "C09": ("venum", "exhaustive enumeration of the per-line option lattice and of small data files on the real text codec, preprocessor and RocksDB compiler",
          "Part 1: for all 17 line types the full lattice of optional fields (absent/default/other), both separators, wildcard owners, locations, address forms, escaped bytes and numeric edges, under both key layouts and codec modes: parse, print, re-parse must give the same keys/values and the same text. Part 2: every data file of <=2 (quick) / <=3 (thorough) lines over a 25-line alphabet of % / Z / ordinary lines compiled to RocksDB v1/v2 before and after the real preprocessor: identical dumps.",
          "values outside the variant lists and larger files are outside the claim", "DESIGN.md §3 C09"),
+ "C01": ("venum", "exhaustive small-scope enumeration of data files x queries x clients x backends against an independent reference interpreter (dnsmodel), end to end through the real compilers and handler",
+         "Every data file made of a fixed skeleton plus every subset of <=2 (quick) / <=3 (thorough) items of a 45-item record alphabet (all line types, default/explicit TTLs, locations, wildcards, nested zone, delegation with glue, sort-order neighbours), compiled with the real compilers to CDB / RocksDB v1 / v2 and served by the real handler for every name of a closed 123-name universe x 14 qtypes x 3 client locations; the response is compared with a reference interpreter written from the property statement (REFUSED / referral / authoritative answer set with TTLs and rdata / wildcard rules / NXDOMAIN / SOA on empty answers). RocksDB backends cover a stated sub-product in quick.",
+         "the reference interpreter is hand-written from the statement and shares no code with dnsdata/db; names and values outside the alphabet, >3 interacting items, additional sections beyond soundness are outside the claim", "DESIGN.md §3 C01"),
+ "C02": ("venum", "exhaustive small-scope differential enumeration: the same data file on CDB, RocksDB v1 and RocksDB v2 must give canonically equal responses",
+         "Skeleton + every subset of <=2 items of a 45-item alphabet (pairs from a 22-item pool in quick; triples and compiler-option variants in thorough) x 40 names x 9 qtypes x up to 7 clients (incl. ECS) compiled by the real compilers to the three backends and served by the real handler; pairwise equality of canonical responses (a panic or missing response on one side is a disagreement).",
+         "no reference model: a defect common to all three backends is invisible here (C01 covers that); shapes outside the alphabet are outside the claim", "DESIGN.md §3 C02"),
+ "C04": ("venum", "exhaustive small-scope metamorphic enumeration: foreign-location edits of the data file must not change any response to a client",
+         "For every base file (<=1 item quick / <=2 thorough), client location L, and every foreign edit (add/delete/change of a line tagged with another location on the queried name, its ancestors, zone cuts and glue hosts; subnets of maps no name selects, sorting before and after the applicable map): response(F) == response(edit(F)) for every query on all three backends.",
+         "foreignness is decided from the generator's own declarations; shapes outside the alphabet are outside the claim", "DESIGN.md §3 C04"),
+ "C07": ("venum", "exhaustive enumeration of small data files x compiler settings against the sequential line-by-line codec, plus a boundary grid of large files for the bulk loader; hang detection in subprocesses",
+         "All files of <=3 (quick) / <=4 (thorough) lines over a 14-line alphabet (many values per key, duplicates, two maps, four rejected lines at every position) compiled under a 57-entry settings grid (workers x builder/batches x batch size x parallelism x v1/v2, CDB workers) with rotating sub-grids for longer files; the full dump of each produced store must equal the multiset the codec emits sequentially, and a rejected line must fail every setting. Large files around the 30000-record bucket boundary (record count, equal-key runs across each cut, 2/3 buckets incl. forced CPU counts). BatchNumParallel=0 settings run in subprocesses with idleness-based hang detection.",
+         "goroutine schedules of the parallel parser are those the runtime produced (the schedule-exploration part of DESIGN C07 is not built); the large-file grid is a stated slice in quick (exhaustive=false there)", "DESIGN.md §3 C07"),
+ "C08": ("vbfs", "explicit-state search over pairs and chains of preprocessed data files: every line diff in every order applied by the real ApplyDiff to the real RocksDB, compared with a fresh compile",
+         "States are preprocessed files (multisets of lines incl. duplicates, two values under one key, Z with/without serial, '.' composite, nested subnets of one map so several range points move, located records); for every ordered pair and both key layouts the diff is applied in every order (<=24 orders) and the dump compared with a fresh compile of the target; faulty diffs (undeletable '-' lines, malformed lines) must fail and change nothing; BFS chains of depth 2/3.",
+         "compile and apply use the same serial except in the serial-skew probe; diffs longer than 4 lines are tried in 24 orders only", "DESIGN.md §3 C08"),
+ "C10": ("venum", "exhaustive enumeration of EDNS/ECS queries x map/subnet configurations x response classes x backends x cache on/off against a brute-force longest-prefix scope oracle",
+         "26 client-subnet/resolver map configurations x 4 stores (CDB combined and per-family prefix sets, RocksDB v1, v2) x cache off/on (second ask hits the cache) x 1103 queries (no EDNS / EDNS with cookie / unknown option / ECS, families 1 and 2, source lengths on and off subnet boundaries, every response class incl. REFUSED and BADVERS): OPT iff asked, ECS iff asked and unchanged, scope = deciding declared subnet length / family default / 0, location falls back to the resolver.",
+         "one ECS option per query, query scope 0; name-to-map search is C03's subject", "DESIGN.md §3 C10"),
+ "C11": ("venum", "exhaustive enumeration of candidate sets x max-answer x EVERY scripted random draw sequence over an edge-value draw alphabet on the real serve path; rigorous interval bracketing of selection probabilities over a complete draw grid; interleaving exploration of the shared generator",
+         "Part 1: candidate multisets of size 1-5 (weights 0,1,2,2^32-1, located/untagged) x max answer 1..8 x every sequence of key draws over {0,1,2^31,2^32-2,2^32-1} (shuffle draws varied separately) through the real compile+handler with the package's random source replaced by a scripted one: count, soundness, no repetition, no weight-0 address. Part 2: for 2-3 candidates and weights from {1,2,3,10} the full 64-cell-per-draw grid is evaluated at both corners of every cell on the real Wrs code, bracketing each win probability from below and above (not statistical). Part 3: all interleavings (<=3 preemptions) of 2-3 threads drawing from the locked source: values = first n outputs, no race.",
+         "probability deviations below the bracket width (<=4.4%) are not detected; sets beyond 5 candidates and draws outside the alphabet are outside the claim", "DESIGN.md §3 C11"),
+ "C13": ("venum", "exhaustive structured enumeration of wire-valid query messages x databases x backends on the real handler (and serve mux), with a well-formedness oracle",
+         "Names (root, 63-byte label, 255-byte name, NUL and dot inside labels, case) x types x EDNS versions x 5 databases (normal, root zone, root delegation, empty, large RRsets) x 3 backends as a full product (12960 cells), each crossed with UDP size x DO x transport, 32 raw EDNS option lists, and a header group (opcode, question count, class, extra RR, client), every message packed and unpacked by miekg first: no panic, at most one message, packs, ID/question echoed, QR set, fits the advertised size or TC, BADVERS for EDNS version != 0, unknown options do not change the answer.",
+         "header vs size/option dimensions are covered pairwise, not fully crossed; only messages miekg can pack", "DESIGN.md §3 C13"),
+ "C14": ("vsched", "exhaustive preemption-bounded interleaving exploration of the real handler over real CDB and RocksDB backends with a vector-clock happens-before race check on every execution",
+         "Seven thread sets (queries x full/partial reload x stats export x shutdown) on the instrumented real handler; CDB files and a real RocksDB (v2 keys, secondary) are opened by the repository's own drivers; every interleaving within 1-2 (quick) / 2-3 (thorough) preemptions is executed; on each execution every read/write of the watch-listed shared fields (IteratorPool.enabled, FBDNSDB.dnsdb, cacheGen, DBConfig.Path, DB.refCount, DB.destroyable, Stats.values, Stats.windows, slidingWindow.samples) is checked against the happens-before relation built only from the synchronisation actually performed; deadlocks and panics are detected.",
+         "only watch-listed fields are race-checked (no free-running -race pass is part of the verdict); one RocksDB handle is shared by the executions of a process (reader state, iterator pool and driver are rebuilt per execution); full reloads to a second RocksDB directory are not explored", "DESIGN.md §3 C14"),
+ "C15": ("vbfs", "explicit-state breadth-first search to a fixed point over Add/Del/batch/backup operations on a real RocksDB-backed store against a map-of-lists model",
+         "Keys {k1,k2}, values {\"\",a,ab,b,ba}, <=3 values per key: all 24336 states reached; in every state every Add, Del and every batch of <=1 (quick) / <=2 (thorough) lines in every order with duplicates (plus one line more in small states) is executed on a real rdb.RDB and compared with the model (error/no-error, list order for Add/Del, additions-then-deletions for batches, failed ops change nothing); Find/ForEach/FindFirst agree; backup+restore (and a second backup generation) reproduce the map.",
+         "values longer than 2 bytes, more than 3 values per key and concurrent writers are outside the claim", "DESIGN.md §3 C15"),
+ "C19": ("vsched", "exhaustive enumeration of timed event histories under a virtual clock (one scheduler execution each), exhaustive enumeration of queries against recording stats/logger, and interleaving exploration with a linearizability oracle",
+         "(a) every sequence of exactly 6 (quick) / 8 (thorough) events over {AddSample, Get, advance 25/35/61 s} on the real metrics.Stats with the real cleaner goroutine driven by a virtual 1-second ticker, judged every second against a (value, expiry) list; plus interleavings of Add/Add/Get with a cleaner pass. (b) 10 names x 8 qtypes x 6 clients x 4 EDNS forms x 5 serve modes x 3 backends with recording Stats and Logger: each counter and the log call must follow the message actually written. (c) all interleavings (<=2/3 preemptions) of counter and sample updates with Get on the real metrics.Stats, checked with porcupine and the happens-before race check.",
+         "location classes default/fallback_default and reader-acquisition error paths are not exercised", "DESIGN.md §3 C19"),
+ "C20": ("venum", "exhaustive enumeration of front-handler configurations x queries x transports against the in-process bare handler, over real loopback sockets",
+         "15 (quick) / 91 (thorough) server configurations (whoami set/unset x refuse-ANY x max answer 1..3, backends, multiple listeners, cache) of a real fbserver.Server on loopback; 296 queries each over UDP (no EDNS, 600, 1232, 4096) and TCP plus malformed raw messages; every reply must equal what FBDNSDB.ServeDNS gives in process for the same wire query and transport (weighted sets as subset+count), TC when too large and complete over TCP, single HINFO for refused ANY, failure reply (and a live server) for question-less messages.",
+         "one exchange at a time; a silent attempt is retried and only total silence is judged; kernel loopback behaviour is trusted", "DESIGN.md §3 C20"),
 }
 NOT_YET = "check not built yet in this round (work in progress; see DESIGN.md §9 for the construction order)"
 NOT_APPLICABLE = {}
